@@ -129,6 +129,10 @@ M_C02(pre, a, obs, post) ==
   If(c.loaded, "AcceptedPublishNeedsLiveTopic")
   \cup If({d.s : d \in obs.data} = expect, "ExactlyTheAttachedReaders")
   \cup If(\A x \in Sessions : obs.ndata[x] <= 1, "OneCopyEach")
+  \* ... judged against the STORED subscriptions too: a session whose user unsubscribed (row deleted) gets nothing, even if the live
+  \* topic still lists the session
+  \cup If(\A d \in obs.data : \A y \in AttOf(c) : y.s = d.s => (IF y.chan THEN pre.csubs[t][y.u].st = "live" ELSE pre.subs[t][y.u].st = "live"),
+          "NoCopyAfterUnsubscribing")
   \cup If(\A d \in obs.data : d.content = a.c /\ d.seq = obs.ackSeq, "CopyUnaltered")
   \* the true author, withheld from channel readers
   \cup If(\A d \in obs.data : d.from = (IF AttChan(c, d.s) THEN "" ELSE Actor(a)), "TrueAuthorWithheldFromChannelReaders")
@@ -299,7 +303,11 @@ M_C09(pre, a, obs, post) ==
           LET t == a.t  c == pre.cache[t]  u == Actor(a) IN
           UNION { LET f == ff
                       x == {y \in AttOf(c) : y.s = f.s} IN
-                  IF f.topic # t THEN {}       \* notices on 'me' are presence's business (C10)
+                  IF f.topic = "me" /\ f.src = t THEN
+                     \* relayed through the recipient's 'me' (Topic.infoSubsOffline): only to users who hold R in the topic
+                     LET v == SessUser[f.s] IN
+                     If(v \in Users /\ c.per[v].in /\ ~c.per[v].deleted /\ "R" \in Eff(c.per[v]), "InfoOnMeOnlyToReaders")
+                  ELSE IF f.topic # t THEN {}       \* other notices on 'me' are presence's business (C10)
                   ELSE If(x # {} /\ \A y \in x : ~y.chan /\ c.per[y.u].in /\ "R" \in Eff(c.per[y.u]), "InfoOnlyToAttachedReaders")
                        \cup If(f.s # a.s, "InfoNeverToOriginatingSession")
                        \cup If(f.what \in {"kp", "kpa", "kpv"} => \A y \in x : y.u # u, "TypingNeverToTheTypist")
